@@ -254,7 +254,32 @@ def t_masks(D, N):
     return True, ""
 
 
-TESTS = dict(masks=t_masks, roundtrip=t_roundtrip, single_mode=t_single_mode, coef_extraction=t_coef_extraction, xy_pipeline=t_xy_pipeline)
+def t_grid(D, N, L, full, zero_centered, xy):
+    """make_grid: left-inclusive, right-exclusive (inclusive with full=True) equidistant grid on [0, L) resp. [-L/2, L/2); a cosine sampled on
+    it has the documented Fourier coefficient (phase shifted by the grid origin)"""
+    ex, jnp = _ex()
+    g = np.asarray(ex.make_grid(D, L, N, full=full, zero_centered=zero_centered, indexing="xy" if xy else "ij"))
+    n = N + 1 if full else N
+    if g.shape != (D,) + (n,) * D:
+        return False, f"grid shape {g.shape}"
+    x0 = -L / 2 if zero_centered else 0.0
+    for c in range(D):
+        ax = (1 - c if (xy and D >= 2 and c < 2) else c)
+        line = np.moveaxis(g[c], ax, 0).reshape(n, -1)
+        if not np.allclose(line, (x0 + np.arange(n) * L / N)[:, None], rtol=0, atol=1e-13 * L):
+            return False, f"coordinate {c}: first points {line[:3, 0]}, expected {x0 + np.arange(3) * L / N}"
+    if not full and not xy:
+        k = [1 + (c % max(1, (N - 1) // 2)) for c in range(D)] if N >= 3 else [0] * D
+        u = np.cos(sum(2 * np.pi * k[c] * g[c] / L for c in range(D)) + 0.4)[None]
+        uh = np.asarray(ex.fft(jnp.asarray(u)))[0]
+        idx = tuple(k)
+        exp = 0.5 * N**D * np.exp(1j * (0.4 + sum(2 * np.pi * k[c] * x0 / L for c in range(D))))
+        if N >= 3 and 2 * max(k) < N and abs(uh[idx] - exp) > 1e-9 * N**D:
+            return False, f"coefficient of cos on the {'zero-centred ' if zero_centered else ''}grid at {k}: {uh[idx]}, expected {exp}"
+    return True, ""
+
+
+TESTS = dict(grid=t_grid, masks=t_masks, roundtrip=t_roundtrip, single_mode=t_single_mode, coef_extraction=t_coef_extraction, xy_pipeline=t_xy_pipeline)
 
 
 def witness(ctx):
@@ -263,6 +288,9 @@ def witness(ctx):
     for D, N in dn + [(1, 49), (1, 98), (1, 103), (2, 49)]:
         ctx.check("masks", dict(D=D, N=N))
     for D, N in dn:
+        for full, zc in itertools.product((False, True), repeat=2):
+            for xy in ((False, True) if D >= 2 else (False,)):
+                ctx.check("grid", dict(D=D, N=N, L=2.9, full=full, zero_centered=zc, xy=xy))
         ctx.check("roundtrip", dict(D=D, N=N, C=2, seed=ctx.seed))
         half = N // 2
         ks = list(itertools.product(range(-half, half + 1), repeat=D))
